@@ -5,15 +5,15 @@ CONSTANTS
   GPUs = {1, 2}
   PageDev <- MCPageDev2
   PhysPage <- MCPhys
-  SpareDev <- MCSpare0
-  MaxRemap = 0
-  Bufs <- MCBufsSlack
+  SpareDev <- MCSpare2
+  MaxRemap = 1
+  Bufs <- MCBufs1
   Ctxs = {1}
   Queues = {1}
-  Ranges <- MCRangesSlack
-  KWrites <- MCKWritesSlack
+  Ranges <- MCRangesR
+  KWrites <- MCKWritesR
   MaxCmds = 3
   Contract = TRUE
-  Deviations = {"overlap_containment_gap"}
+  Deviations = {}
 INVARIANTS TypeOK CompleteOnceAfterAll RoundTrip OutsideUntouched NoHang
 CHECK_DEADLOCK FALSE
